@@ -14,7 +14,7 @@ fn gen_template(r: &mut SplitMix64, b: B) -> String {
     for _ in 0..n {
         match r.below(16) {
             0 | 1 => s.push_str(r.pick::<&str>(&["a", "col", "x1", "SELECT", "é", "_u", "a$b"])),
-            2 => s.push_str(r.pick::<&str>(&[" = ", " + ", "||", "->", ",", "(", ")", " ", "  ", "\t"])),
+            2 => s.push_str(r.pick::<&str>(&[" = ", " + ", "||", "->", ",", "(", ")", " ", "  ", "\t", "-", "- ", "+", "<", "*", "/"])),
             3 => { let q = *r.pick(&['\'', '"', '`']); s.push(q); for _ in 0..r.below(5) { match r.below(6) { 0 => { s.push(q); s.push(q); } 1 => { s.push('\\'); s.push(q); } 2 => s.push(mark), 3 => { s.push(mark); s.push('1'); } _ => s.push(*r.pick(&['a', ' ', '?', '$', '1'])) } } s.push(q); }
             4 => { s.push('['); for _ in 0..r.below(3) { s.push(*r.pick(&['a', '?', '$', '1', ' '])); } s.push(']'); }
             5 | 6 | 7 => { s.push(mark); if b == B::Postgres { match r.below(5) { 0 => {} 1 => s.push('0'), 2 => s.push_str("9"), 3 => s.push_str(r.pick::<&str>(&["x", "word", "1a"])), _ => s.push_str(&format!("{}", 1 + r.below(4))) } } }
@@ -77,14 +77,15 @@ fn spec(b: B, t: &str, lits: &[String]) -> Result<Option<String>, &'static str> 
 }
 
 fn check_template(ctx: &mut Ctx, b: B, t: &str, nvals: usize) {
-    let vals: Vec<i32> = (0..nvals as i32).map(|i| 101 + i).collect();
+    // every third value is negative (its literal starts with `-`: nothing may be inserted between the template's text and it)
+    let vals: Vec<i32> = (0..nvals as i32).map(|i| if (i as usize + t.chars().count()) % 3 == 0 { -(101 + i) } else { 101 + i }).collect();
     let lits: Vec<String> = vals.iter().map(|v| v.to_string()).collect();
     let q = Query::select().expr(Expr::cust_with_values(t, vals.clone())).to_owned();
     let inline = to_string_q(b, &q).map(|s| s.strip_prefix("SELECT ").unwrap_or(&s).to_string());
     let built = build_q(b, &q).map(|(s, v)| (s.strip_prefix("SELECT ").unwrap_or(&s).to_string(), v));
     let expect = match (&inline, &built) {
         (Some(i), Some((p, v))) => {
-            let order: Vec<String> = v.0.iter().map(|x| match x { Value::Int(Some(n)) => (n - 101).to_string(), _ => "?".into() }).collect();
+            let order: Vec<String> = v.0.iter().map(|x| match x { Value::Int(Some(n)) => (n.abs() - 101).to_string(), _ => "?".into() }).collect();
             format!("ok {} {} [{}]", hs(i), hs(p), order.join(","))
         }
         _ => "panic".to_string(),
